@@ -6,6 +6,7 @@ The msgpack layer is replaced by its contract (a value is decoded iff it is hand
 concretely on every run by truncating real frames at every byte).
 """
 import io
+import os
 import struct as _struct
 import types
 
@@ -410,7 +411,7 @@ def model_validation():
 
 
 def obligations(tier, seed):
-    obs = [ob("side/msgpack-prefix-free", "side", "model_validation", {})]
+    obs = [ob("side/msgpack-prefix-free", "side", "model_validation", {}), ob("side/gzip-cuts", "side", "gzip_sweep", {"step": 7 if tier == "quick" else 1}, timeout=600)]
     to = 40 if tier == "quick" else 180
     obs.append(ob("O1-read-step", "xh", "read_step", {}, timeout=to, bounds="all o, L < 2^32, limit"))
     vectors = [(a, b, c) for a in (0, 1, 2) for b in (0, 1, 2) for c in (0, 1, 2)]
@@ -565,7 +566,51 @@ def _fault_sweep(name, recs):
     return None
 
 
+def gzip_sweep(step: int = 5):
+    """A gzip-compressed stream cut at every `step`-th byte, read by path and from a file object: the reader yields exactly the
+    records whose frames are complete in the plaintext an independent zlib decompressor recovers from the same bytes (concrete
+    side condition: the decompressors are C code; the raw-stream reader applied to the recovered plaintext is the reference)."""
+    import random
+    import zlib
+
+    from flow.record import RecordDescriptor, RecordReader, RecordWriter
+    D = RecordDescriptor("t/gz", [("string", "s"), ("varint", "n")])
+    rnd = random.Random(1)
+    n_cuts = 0
+    with tempdir() as d:
+        p = os.path.join(d, "x.records.gz")
+        w = RecordWriter(p)
+        for i in range(150):
+            w.write(D("".join(rnd.choice("abcdefghijklmnopqrstuvwxyz0123456789") for _ in range(rnd.randint(20, 200))), i))
+        w.close()
+        raw = open(p, "rb").read()
+        for cut in list(range(0, len(raw), step)) + [len(raw) - 1, len(raw)]:
+            dz = zlib.decompressobj(wbits=31)
+            try:
+                plain = dz.decompress(raw[:cut])
+            except zlib.error:
+                plain = b""
+            exp = [o for o in _read_all(plain)[0]]
+            q = os.path.join(d, "c.records.gz")
+            open(q, "wb").write(raw[:cut])
+            for how in ("path", "fileobj"):
+                got = []
+                try:
+                    rd = RecordReader(q) if how == "path" else RecordReader(fileobj=open(q, "rb"))
+                    for r in rd:
+                        got.append(_obs(r))
+                except Exception:  # noqa: BLE001
+                    pass
+                n_cuts += 1
+                if got != exp:
+                    return {"ok": False, "detail": f"gzip stream of 150 records cut at byte {cut} of {len(raw)} (read by {how}): reader yields {len(got)} records, {len(exp)} complete frames are recoverable", "cex": {"cut": cut, "how": how}}
+    return {"ok": True, "detail": f"{n_cuts} reads of truncated gzip streams"}
+
+
 def replay(res):
+    if "gzip" in res["id"]:
+        out = gzip_sweep(3)
+        return {"reproduced": not out["ok"], "key": "C04/gzip-cuts", "what": out["detail"], "input": out.get("cex")}
     if res["kind"] == "side" and res["verdict"] == "side-fail":
         out = model_validation()
         return {"reproduced": not out["ok"], "key": "C04/model", "what": "truncated frame body decodes: " + out["detail"], "input": {}}
